@@ -539,6 +539,12 @@ impl Lock {
         let model_writes: Vec<(u32, u8)> = self.mem.wlog[setup_mark..].iter().map(|(a, _)| (*a, self.mem.peek(*a).unwrap_or(0))).collect();
 
         // ---- restore both machines to the baseline
+        // the 8-bit timer keeps a private copy of its configuration, refreshed when TCR0 is written
+        // through the bus: if this step legitimately wrote into the timer block (the reference did
+        // too) or was not judged at all, the private copy is brought back in line below; a judged
+        // step that did NOT address the timer must not have touched it (let_time_pass looks)
+        let judged_ok0 = matches!((&step.outcome, &real), (Outcome::Ok(_), RealOutcome::Ok(_)));
+        let resync_timer = !judged_ok0 || self.mem.wlog.iter().any(|(a, _)| (0xffff80..=0xffff9f).contains(a));
         // 1. undo everything the reference logged (set-up and step), newest first
         while let Some((a, old)) = self.mem.wlog.pop() {
             self.mem.poke(a, old);
@@ -550,6 +556,10 @@ impl Lock {
             if real_peek(&self.cpu, *a) != Some(m) {
                 real_poke(&mut self.cpu, *a, m);
             }
+        }
+        if resync_timer {
+            let tcr = self.mem.peek(0xffff80).unwrap_or(0);
+            let _ = catch_unwind(AssertUnwindSafe(|| self.cpu.bus.write(0xffff80, tcr)));
         }
         // 3. steps that are not judged / failed may have written anywhere: resync the small regions
         let judged_ok = matches!((&step.outcome, &real), (Outcome::Ok(_), RealOutcome::Ok(_)));
